@@ -191,7 +191,18 @@ pub fn run_c13(scv: &Value, want_log: bool) -> RunResult {
         OSW.with(|w| *w.borrow_mut() = Some(OsWorld { objects: objects.clone(), events: vec![], seq: 0, rng: Rng::new(1), now_secs: crate::interpose::EPOCH0 as u64, list_mode: 0, max_page: 1000, mid_action: vec![false; 4] }));
         taskchampion::server::verif::set_randint_source(Some(Box::new(|| 255)));
     }
-    let secret: Vec<u8> = if b == 12 { format!("secret-{}", sc.seed % 3).into_bytes() } else { SECRET.to_vec() };
+    // secrets are byte strings and are used as given: a fifth of the runs with an ordinary
+    // constructor use one that ends in white space or a line ending
+    let secret: Vec<u8> = if b == 2 {
+        SECRET.to_vec()
+    } else {
+        match (sc.seed / 7) % 10 {
+            0 => b"secret with a line ending\n".to_vec(),
+            1 => b"tab\tsecret \r\n".to_vec(),
+            _ if b == 12 => format!("secret-{}", sc.seed % 3).into_bytes(),
+            _ => SECRET.to_vec(),
+        }
+    };
     let httpd = if b == 5 { Some(Httpd::start(HttpState::new(sc.seed, 0)).expect("http listener")) } else { None };
     let rt = if b == 5 { Some(tokio::runtime::Builder::new_current_thread().enable_all().build().unwrap()) } else { None };
     let client_id = Uuid::from_u128(0xc11e_0000_0000_4000_8000_00000000000d);
